@@ -31,7 +31,7 @@ fn q(x: &str) -> String {
 pub fn rules(th: bool) -> Vec<(String, String, String)> {
     let pats = {
         let mut p = strings(&["a", "A", "i", "I", "*", "?"], if th { 4 } else { 3 });
-        for x in ["'a'", "\"A\"", "'*a'", "b", "ab", "aB*", "*Ab", "?^a", "?A$", "?(a|B)", ">1", "=1", ">=1.5", "i>1", "?.*a", "?a.*", "?.*A.*", "?.*", "k", "*k", "k*", "*k*", "K", "s*", "*ss*", "ak"] {
+        for x in ["'a'", "\"A\"", "'*a'", "b", "ab", "aB*", "*Ab", "?^a", "?A$", "?(a|B)", ">1", "=1", ">=1.5", "i>1", "?.*a", "?a.*", "?.*A.*", "?.*", "?^\\S+$", "?\\D", "?a\\W", "?\\Bb", "?^\\s*$", "?(?P<x>a)b", "?[^\\W]", "?\\x41", "?\\pL", "k", "*k", "k*", "*k*", "K", "s*", "*ss*", "ak"] {
             p.push(x.to_string());
         }
         p
@@ -146,6 +146,9 @@ pub fn docs() -> Vec<MObj> {
         out.push(MObj::new().with("f", s(&t)));
     }
     for t in ["\u{130}", "\u{130}a", "a\u{130}", "\u{212a}", "a\u{212a}", "\u{212a}a", "\u{17f}", "É", "é", "aÉ", "ǅ", "ß", "ẞ"] {
+        out.push(MObj::new().with("f", s(t)));
+    }
+    for t in [" ", "a b", "a ", "1", "a1", "A-", "-b", "ab"] {
         out.push(MObj::new().with("f", s(t)));
     }
     for t in ["TRUE", "True", "ENABLED", "Enabled", "INF", "inf", "1.5", "NAN"] {
